@@ -3,7 +3,7 @@
    runner and by vm_compute inside Coq (Cases_*.v). *)
 From Coq Require Import List NArith ZArith Bool String.
 From Coq.Strings Require Import Byte.
-From OAP Require Import Base.Bytes Base.Res Base.Text Gen.Consts Model.Handshake Model.Metadata Model.Header Model.Frame Model.Stream Model.World Model.Ids Model.Waiters Model.Dispatch.
+From OAP Require Import Base.Bytes Base.Res Base.Text Gen.Consts Model.Handshake Model.Metadata Model.Header Model.Frame Model.Stream Model.World Model.Ids Model.Waiters Model.Dispatch Model.WritePath.
 Import ListNotations.
 Local Open Scope N_scope.
 
@@ -129,7 +129,7 @@ Definition run_md (op : bytes) (args : list bytes) : bytes :=
 
 (* ---- frames ---- *)
 (* byte strings in case lines: hex, "-" for empty, or rep:<2 hex digits>:<n> for n copies of one byte *)
-Definition unhexx (b : bytes) : option bytes :=
+Definition unhexx1 (b : bytes) : option bytes :=
   match split_on ":"%byte b with
   | [r; x; n] => if bytes_eqb r (str "rep") then
                    match unhex x, undec n with
@@ -138,6 +138,9 @@ Definition unhexx (b : bytes) : option bytes :=
                  else None
   | _ => unhex b
   end.
+(* a+b+c : concatenation of parts *)
+Definition unhexx (b : bytes) : option bytes :=
+  option_map (fun l : list bytes => List.concat l) (omap_all unhexx1 (split_on "+"%byte b)).
 
 (* long outputs are summarised: length, first/last 48 bytes, byte sum and running-sum (position sensitive) *)
 Definition bsum (l : bytes) : N * N :=
@@ -471,6 +474,44 @@ Definition run_dp (op : bytes) (args : list bytes) : bytes :=
     | _ => bad end
   else bad.
 
+(* ---- write path (C12) ----
+   wp.run <cap> <event> ...   events: E.<data> enqueue | W write (socket takes all) | W.<n> write, socket takes n bytes
+                                      T tick flush | T.<n> | M websocket write | C close
+   output: verdicts=<0/1...> sock=<hexsum> msgs=<count>:<hexsum of concatenation> *)
+Definition wp_event (s : wpstate) (e : bytes) : option wpstate :=
+  match e with
+  | k :: rest =>
+      let arg := match rest with "."%byte :: r => Some r | _ => None end in
+      if byte_eqb k "E"%byte then obind arg (fun a => obind (unhexx a) (fun d => Some (wpstep s (PEnq d))))
+      else if byte_eqb k "W"%byte then
+        match arg with
+        | Some a => obind (undec a) (fun n => Some (wpstep s (PWrite (N.to_nat n))))
+        | None => Some (wpstep s (PWrite (List.length (wp_rem s ++ match wp_queue s with d :: _ => d | [] => [] end))))
+        end
+      else if byte_eqb k "T"%byte then
+        match arg with
+        | Some a => obind (undec a) (fun n => Some (wpstep s (PTick (N.to_nat n))))
+        | None => Some (wpstep s (PTick (List.length (wp_rem s))))
+        end
+      else if byte_eqb k "M"%byte then Some (wpstep s PWsWrite)
+      else if byte_eqb k "C"%byte then Some (wpstep s PClose)
+      else None
+  | [] => None
+  end.
+Definition run_wp (op : bytes) (args : list bytes) : bytes :=
+  if bytes_eqb op (str "wp.run") then
+    match args with
+    | cap :: evs =>
+        match undec cap with
+        | Some cap =>
+            match fold_left (fun os e => obind os (fun s => wp_event s e)) evs (Some (wp0 (N.to_nat cap))) with
+            | Some s => str "verdicts=" ++ flat_map bool_s (wp_verdicts s) ++ str " sock=" ++ hexsum (wp_sock s)
+                        ++ str " msgs=" ++ decn (List.length (wp_msgs s)) ++ str ":" ++ hexsum (List.concat (wp_msgs s))
+            | None => bad end
+        | None => bad end
+    | _ => bad end
+  else bad.
+
 Definition run_line (line : bytes) : bytes :=
   match words line with
   | op :: args =>
@@ -481,6 +522,7 @@ Definition run_line (line : bytes) : bytes :=
       else if starts_with (str "id.") op then run_id op args
       else if starts_with (str "wt.") op then run_wt op args
       else if starts_with (str "dp.") op then run_dp op args
+      else if starts_with (str "wp.") op then run_wp op args
       else bad
   | [] => bad
   end.
